@@ -7,8 +7,8 @@
    key rules).  The standard algorithms are universally quantified function
    parameters (H, raw, ed_raw, pkcs1_raw, pss_raw ...): every theorem holds
    for every instantiation, in particular for the Go standard library. *)
-From Coq Require Import List NArith ZArith Bool.
-From Tink Require Import Bytes DER DERProofs Sig SigProofs SigProofs2.
+From Coq Require Import List NArith ZArith Bool Lia.
+From Tink Require Import Bytes DER DERProofs Sig SigProofs SigProofs2 SigProofs3 Rsa8017 Rsa8017Proofs.
 Import ListNotations.
 Open Scope N_scope.
 
@@ -494,127 +494,151 @@ Proof.
 Qed.
 Print Assumptions C03_legacy_sign_is_crunchy_over_suffixed_message.
 
-(* ---------------- (c) modified message / other key: reduction form ---------------- *)
+(* ---------------- (c) modified message / other key ---------------- *)
+(* Repaired after the second audit (proofs/SigProofs3.v).  No unforgeability
+   law is assumed anywhere: a law "the oracle accepts this raw signature for no
+   other (key, representative)" is false of every real primitive (ECDSA
+   public-key recovery; digest truncation in crypto/ecdsa; RSA duplicate-
+   signature key selection with a free exponent; counting).  Proved instead:
+   (1) acceptance of a signature Sign produced, under a FIXED other key and / or
+       other message, IS a named oracle event (iff), no claim that it is hard;
+   (2) same key, other message: acceptance exhibits an oracle acceptance of the
+       genuine raw signature under the SAME key for another representative
+       (the EUF-CMA shaped event) or a hash collision on two distinct strings;
+   (3) other key, ECDSA: the literal clause is FALSE for keys computed from the
+       signature (recovery law). *)
 
-(* Ed25519.  If the signature Sign produced for (seed, msg) is accepted for
-   another (public key, message), then the Ed25519 oracle has accepted the
-   genuine raw signature for a DIFFERENT (key, message) pair: a forgery
-   against the primitive.  No law is assumed. *)
-Theorem C03_ed25519_modified_or_other_key_is_oracle_forgery :
-  forall ed_raw (ed_sign : bytes -> bytes -> bytes) v id seed pub msg sig pub' msg',
+(* Ed25519 *)
+Theorem C03_ed25519_genuine_signature_accepted_iff_oracle_event :
+  forall ed_raw (ed_sign : bytes -> bytes -> bytes) v id seed msg sig pub' msg',
     ed25519_sign ed_sign v id seed msg = Ok sig ->
-    ed25519_verify ed_raw v id pub' sig msg' = Ok tt ->
-    (pub', msg') <> (pub, msg) ->
-    ed_raw pub' (msg' ++ suffix v) (ed_sign seed (msg ++ suffix v)) = true /\
-    (pub', msg' ++ suffix v) <> (pub, msg ++ suffix v).
-Proof. exact ed25519_forgery_reduction. Qed.
-Print Assumptions C03_ed25519_modified_or_other_key_is_oracle_forgery.
+    (ed25519_verify ed_raw v id pub' sig msg' = Ok tt <->
+     ed_raw pub' (msg' ++ suffix v) (ed_sign seed (msg ++ suffix v)) = true) /\
+    (ed25519_verify ed_raw v id pub' sig msg' = Err <->
+     ed_raw pub' (msg' ++ suffix v) (ed_sign seed (msg ++ suffix v)) = false).
+Proof.
+  intros. split; [eapply ed25519_genuine_accept_iff|eapply ed25519_genuine_reject_iff]; eassumption.
+Qed.
+Print Assumptions C03_ed25519_genuine_signature_accepted_iff_oracle_event.
 
-(* the same under the unforgeability law for THIS signature: if the oracle
-   accepts the genuine raw signature for no other (key, message), Verify
-   rejects every other key and every other message *)
-Theorem C03_ed25519_modified_or_other_key_rejected :
-  forall ed_raw (ed_sign : bytes -> bytes -> bytes) v id seed pub msg sig pub' msg',
+Theorem C03_ed25519_same_key_other_message_is_oracle_forgery :
+  forall ed_raw (ed_sign : bytes -> bytes -> bytes) v id seed pub msg sig msg',
     ed25519_sign ed_sign v id seed msg = Ok sig ->
-    (forall p m, ed_raw p m (ed_sign seed (msg ++ suffix v)) = true -> (p, m) = (pub, msg ++ suffix v)) ->
-    (pub', msg') <> (pub, msg) ->
-    ed25519_verify ed_raw v id pub' sig msg' = Err.
-Proof. exact ed25519_modified_rejected_unless_forgery. Qed.
-Print Assumptions C03_ed25519_modified_or_other_key_rejected.
+    ed25519_verify ed_raw v id pub sig msg' = Ok tt ->
+    msg' <> msg ->
+    ed_raw pub (msg' ++ suffix v) (ed_sign seed (msg ++ suffix v)) = true /\
+    msg' ++ suffix v <> msg ++ suffix v.
+Proof. exact ed25519_same_key_other_message_reduction. Qed.
+Print Assumptions C03_ed25519_same_key_other_message_is_oracle_forgery.
 
-(* RSA-SSA-PKCS1.  k' is any key with the same output prefix (modulus,
-   exponent and hash may differ).  The message representative is the digest:
-   acceptance of a genuine signature under another (modulus, exponent, hash,
-   message) exhibits an oracle acceptance of the genuine raw signature on a
-   different (modulus, exponent, hash, digest), or a collision of the hash on
-   two distinct strings. *)
-Theorem C03_rsa_pkcs1_modified_or_other_key_is_oracle_forgery :
-  forall H pkcs1_raw (pkcs1_sign_raw : bytes -> hasht -> bytes -> bytes) k k' sk msg msg',
-    rsa_same_prefix k k' ->
-    pkcs1_verify H pkcs1_raw k' (pkcs1_sign H pkcs1_sign_raw k sk msg) msg' = Ok tt ->
-    (rk_n k', rk_e k', rk_hash k', msg') <> (rk_n k, rk_e k, rk_hash k, msg) ->
-    let sfx := suffix (rk_variant k) in
-    let body := pkcs1_sign_raw sk (rk_hash k) (H (rk_hash k) (msg ++ sfx)) in
-    pkcs1_raw (rk_n k') (rk_e k') (rk_hash k') (H (rk_hash k') (msg' ++ sfx)) body = true /\
-    ((rk_n k', rk_e k', rk_hash k', H (rk_hash k') (msg' ++ sfx)) <>
-       (rk_n k, rk_e k, rk_hash k, H (rk_hash k) (msg ++ sfx)) \/
-     (H (rk_hash k) (msg' ++ sfx) = H (rk_hash k) (msg ++ sfx) /\ msg' ++ sfx <> msg ++ sfx)).
-Proof. exact pkcs1_forgery_reduction. Qed.
-Print Assumptions C03_rsa_pkcs1_modified_or_other_key_is_oracle_forgery.
-
-Theorem C03_rsa_pkcs1_modified_or_other_key_rejected :
+(* RSA-SSA-PKCS1: k' is any key with the same output prefix (modulus, exponent
+   and hash may differ) *)
+Theorem C03_rsa_pkcs1_genuine_signature_accepted_iff_oracle_event :
   forall H pkcs1_raw (pkcs1_sign_raw : bytes -> hasht -> bytes -> bytes) k k' sk msg msg',
     rsa_same_prefix k k' ->
     let sfx := suffix (rk_variant k) in
     let body := pkcs1_sign_raw sk (rk_hash k) (H (rk_hash k) (msg ++ sfx)) in
-    (forall n e h d, pkcs1_raw n e h d body = true ->
-       (n, e, h, d) = (rk_n k, rk_e k, rk_hash k, H (rk_hash k) (msg ++ sfx))) ->
-    (H (rk_hash k) (msg' ++ sfx) = H (rk_hash k) (msg ++ sfx) -> msg' ++ sfx = msg ++ sfx) ->
-    (rk_n k', rk_e k', rk_hash k', msg') <> (rk_n k, rk_e k, rk_hash k, msg) ->
-    pkcs1_verify H pkcs1_raw k' (pkcs1_sign H pkcs1_sign_raw k sk msg) msg' = Err.
-Proof. exact pkcs1_modified_rejected_unless_forgery. Qed.
-Print Assumptions C03_rsa_pkcs1_modified_or_other_key_rejected.
+    (pkcs1_verify H pkcs1_raw k' (pkcs1_sign H pkcs1_sign_raw k sk msg) msg' = Ok tt <->
+     pkcs1_raw (rk_n k') (rk_e k') (rk_hash k') (H (rk_hash k') (msg' ++ sfx)) body = true) /\
+    (pkcs1_verify H pkcs1_raw k' (pkcs1_sign H pkcs1_sign_raw k sk msg) msg' = Err <->
+     pkcs1_raw (rk_n k') (rk_e k') (rk_hash k') (H (rk_hash k') (msg' ++ sfx)) body = false).
+Proof. exact pkcs1_genuine_accept_iff. Qed.
+Print Assumptions C03_rsa_pkcs1_genuine_signature_accepted_iff_oracle_event.
 
-(* RSA-SSA-PSS: the salt length is part of the key side of the pair *)
-Theorem C03_rsa_pss_modified_or_other_key_is_oracle_forgery :
-  forall H pss_raw (pss_sign_raw : bytes -> hasht -> N -> bytes -> bytes -> bytes) k k' sk rnd msg msg',
-    rsa_same_prefix k k' ->
-    pss_verify H pss_raw k' (pss_sign H pss_sign_raw k sk rnd msg) msg' = Ok tt ->
-    (rk_n k', rk_e k', rk_hash k', rk_salt k', msg') <> (rk_n k, rk_e k, rk_hash k, rk_salt k, msg) ->
+Theorem C03_rsa_pkcs1_same_key_other_message_is_oracle_forgery :
+  forall H pkcs1_raw (pkcs1_sign_raw : bytes -> hasht -> bytes -> bytes) k sk msg msg',
+    pkcs1_verify H pkcs1_raw k (pkcs1_sign H pkcs1_sign_raw k sk msg) msg' = Ok tt ->
+    msg' <> msg ->
     let sfx := suffix (rk_variant k) in
-    let body := pss_sign_raw sk (rk_hash k) (rk_salt k) (H (rk_hash k) (msg ++ sfx)) rnd in
-    pss_raw (rk_n k') (rk_e k') (rk_hash k') (rk_salt k') (H (rk_hash k') (msg' ++ sfx)) body = true /\
-    ((rk_n k', rk_e k', rk_hash k', rk_salt k', H (rk_hash k') (msg' ++ sfx)) <>
-       (rk_n k, rk_e k, rk_hash k, rk_salt k, H (rk_hash k) (msg ++ sfx)) \/
+    let body := pkcs1_sign_raw sk (rk_hash k) (H (rk_hash k) (msg ++ sfx)) in
+    pkcs1_raw (rk_n k) (rk_e k) (rk_hash k) (H (rk_hash k) (msg' ++ sfx)) body = true /\
+    (H (rk_hash k) (msg' ++ sfx) <> H (rk_hash k) (msg ++ sfx) \/
      (H (rk_hash k) (msg' ++ sfx) = H (rk_hash k) (msg ++ sfx) /\ msg' ++ sfx <> msg ++ sfx)).
-Proof. exact pss_forgery_reduction. Qed.
-Print Assumptions C03_rsa_pss_modified_or_other_key_is_oracle_forgery.
+Proof. exact pkcs1_same_key_other_message_reduction. Qed.
+Print Assumptions C03_rsa_pkcs1_same_key_other_message_is_oracle_forgery.
 
-Theorem C03_rsa_pss_modified_or_other_key_rejected :
+(* RSA-SSA-PSS: the salt length belongs to the key *)
+Theorem C03_rsa_pss_genuine_signature_accepted_iff_oracle_event :
   forall H pss_raw (pss_sign_raw : bytes -> hasht -> N -> bytes -> bytes -> bytes) k k' sk rnd msg msg',
     rsa_same_prefix k k' ->
     let sfx := suffix (rk_variant k) in
     let body := pss_sign_raw sk (rk_hash k) (rk_salt k) (H (rk_hash k) (msg ++ sfx)) rnd in
-    (forall n e h s d, pss_raw n e h s d body = true ->
-       (n, e, h, s, d) = (rk_n k, rk_e k, rk_hash k, rk_salt k, H (rk_hash k) (msg ++ sfx))) ->
-    (H (rk_hash k) (msg' ++ sfx) = H (rk_hash k) (msg ++ sfx) -> msg' ++ sfx = msg ++ sfx) ->
-    (rk_n k', rk_e k', rk_hash k', rk_salt k', msg') <> (rk_n k, rk_e k, rk_hash k, rk_salt k, msg) ->
-    pss_verify H pss_raw k' (pss_sign H pss_sign_raw k sk rnd msg) msg' = Err.
-Proof. exact pss_modified_rejected_unless_forgery. Qed.
-Print Assumptions C03_rsa_pss_modified_or_other_key_rejected.
+    (pss_verify H pss_raw k' (pss_sign H pss_sign_raw k sk rnd msg) msg' = Ok tt <->
+     pss_raw (rk_n k') (rk_e k') (rk_hash k') (rk_salt k') (H (rk_hash k') (msg' ++ sfx)) body = true) /\
+    (pss_verify H pss_raw k' (pss_sign H pss_sign_raw k sk rnd msg) msg' = Err <->
+     pss_raw (rk_n k') (rk_e k') (rk_hash k') (rk_salt k') (H (rk_hash k') (msg' ++ sfx)) body = false).
+Proof. exact pss_genuine_accept_iff. Qed.
+Print Assumptions C03_rsa_pss_genuine_signature_accepted_iff_oracle_event.
 
-(* ECDSA (both encodings): the verifying key keeps curve, encoding and prefix
-   and has any public point and hash.  Acceptance for another (point, hash,
-   message) exhibits a raw verification of the genuine (r, s) on a different
-   (point, digest), or two distinct (hash, string) pairs with one digest. *)
-Theorem C03_ecdsa_modified_or_other_key_is_oracle_forgery :
-  forall H raw (sign_rs : curve -> bytes -> bytes -> bytes -> N * N) k sk rnd msg sig pub' h' msg',
+Theorem C03_rsa_pss_same_key_other_message_is_oracle_forgery :
+  forall H pss_raw (pss_sign_raw : bytes -> hasht -> N -> bytes -> bytes -> bytes) k sk rnd msg msg',
+    pss_verify H pss_raw k (pss_sign H pss_sign_raw k sk rnd msg) msg' = Ok tt ->
+    msg' <> msg ->
+    let sfx := suffix (rk_variant k) in
+    let body := pss_sign_raw sk (rk_hash k) (rk_salt k) (H (rk_hash k) (msg ++ sfx)) rnd in
+    pss_raw (rk_n k) (rk_e k) (rk_hash k) (rk_salt k) (H (rk_hash k) (msg' ++ sfx)) body = true /\
+    (H (rk_hash k) (msg' ++ sfx) <> H (rk_hash k) (msg ++ sfx) \/
+     (H (rk_hash k) (msg' ++ sfx) = H (rk_hash k) (msg ++ sfx) /\ msg' ++ sfx <> msg ++ sfx)).
+Proof. exact pss_same_key_other_message_reduction. Qed.
+Print Assumptions C03_rsa_pss_same_key_other_message_is_oracle_forgery.
+
+(* ECDSA (both encodings).  The verifying key keeps curve, encoding and prefix
+   and has any public point and hash. *)
+Theorem C03_ecdsa_genuine_signature_accepted_iff_oracle_event :
+  forall H raw (sign_rs : curve -> bytes -> bytes -> bytes -> N * N),
     (forall c sk h rnd, fst (sign_rs c sk h rnd) < 256 ^ N.of_nat (field_size c) /\
                         snd (sign_rs c sk h rnd) < 256 ^ N.of_nat (field_size c)) ->
-    ecdsa_sign H sign_rs k sk rnd msg = Some sig ->
-    ecdsa_verify H raw (ecdsa_with_pub_hash k pub' h') sig msg' = Ok tt ->
-    (pub', h', msg') <> (ek_pub k, ek_hash k, msg) ->
-    let sfx := suffix (ek_variant k) in
-    let rs := sign_rs (ek_curve k) sk (H (ek_hash k) (msg ++ sfx)) rnd in
-    raw (ek_curve k) pub' (H h' (msg' ++ sfx)) (fst rs) (snd rs) = true /\
-    ((pub', H h' (msg' ++ sfx)) <> (ek_pub k, H (ek_hash k) (msg ++ sfx)) \/
-     (H h' (msg' ++ sfx) = H (ek_hash k) (msg ++ sfx) /\ (h', msg' ++ sfx) <> (ek_hash k, msg ++ sfx))).
-Proof. exact ecdsa_forgery_reduction. Qed.
-Print Assumptions C03_ecdsa_modified_or_other_key_is_oracle_forgery.
-
-Theorem C03_ecdsa_modified_or_other_key_rejected :
-  forall H raw (sign_rs : curve -> bytes -> bytes -> bytes -> N * N) k sk rnd msg sig pub' h' msg',
-    (forall c sk h rnd, fst (sign_rs c sk h rnd) < 256 ^ N.of_nat (field_size c) /\
-                        snd (sign_rs c sk h rnd) < 256 ^ N.of_nat (field_size c)) ->
+    forall k sk rnd msg sig pub' h' msg',
     ecdsa_sign H sign_rs k sk rnd msg = Some sig ->
     let sfx := suffix (ek_variant k) in
     let rs := sign_rs (ek_curve k) sk (H (ek_hash k) (msg ++ sfx)) rnd in
-    (forall p d, raw (ek_curve k) p d (fst rs) (snd rs) = true -> (p, d) = (ek_pub k, H (ek_hash k) (msg ++ sfx))) ->
-    (H h' (msg' ++ sfx) = H (ek_hash k) (msg ++ sfx) -> (h', msg' ++ sfx) = (ek_hash k, msg ++ sfx)) ->
-    (pub', h', msg') <> (ek_pub k, ek_hash k, msg) ->
-    ecdsa_verify H raw (ecdsa_with_pub_hash k pub' h') sig msg' = Err.
-Proof. exact ecdsa_modified_rejected_unless_forgery. Qed.
-Print Assumptions C03_ecdsa_modified_or_other_key_rejected.
+    (ecdsa_verify H raw (ecdsa_with_pub_hash k pub' h') sig msg' = Ok tt <->
+     raw (ek_curve k) pub' (H h' (msg' ++ sfx)) (fst rs) (snd rs) = true) /\
+    (ecdsa_verify H raw (ecdsa_with_pub_hash k pub' h') sig msg' = Err <->
+     raw (ek_curve k) pub' (H h' (msg' ++ sfx)) (fst rs) (snd rs) = false).
+Proof. exact ecdsa_genuine_accept_iff. Qed.
+Print Assumptions C03_ecdsa_genuine_signature_accepted_iff_oracle_event.
+
+Theorem C03_ecdsa_same_key_other_message_is_oracle_forgery :
+  forall H raw (sign_rs : curve -> bytes -> bytes -> bytes -> N * N),
+    (forall c sk h rnd, fst (sign_rs c sk h rnd) < 256 ^ N.of_nat (field_size c) /\
+                        snd (sign_rs c sk h rnd) < 256 ^ N.of_nat (field_size c)) ->
+    forall k sk rnd msg sig msg',
+    ecdsa_sign H sign_rs k sk rnd msg = Some sig ->
+    ecdsa_verify H raw k sig msg' = Ok tt ->
+    msg' <> msg ->
+    let sfx := suffix (ek_variant k) in
+    let rs := sign_rs (ek_curve k) sk (H (ek_hash k) (msg ++ sfx)) rnd in
+    raw (ek_curve k) (ek_pub k) (H (ek_hash k) (msg' ++ sfx)) (fst rs) (snd rs) = true /\
+    (H (ek_hash k) (msg' ++ sfx) <> H (ek_hash k) (msg ++ sfx) \/
+     (H (ek_hash k) (msg' ++ sfx) = H (ek_hash k) (msg ++ sfx) /\ msg' ++ sfx <> msg ++ sfx)).
+Proof. exact ecdsa_same_key_other_message_reduction. Qed.
+Print Assumptions C03_ecdsa_same_key_other_message_is_oracle_forgery.
+
+(* "Signatures are rejected under other keys" is FALSE for ECDSA when the
+   other key may be computed from the signature.  [recover c d r s] is ECDSA
+   public-key recovery (p = r^-1 (s R - d G), R a point with abscissa r; None
+   when there is none).  Under its law -- whatever it returns verifies, which
+   real ECDSA satisfies -- Verify ACCEPTS the genuine signature, for ANY
+   message msg' and hash h', under the recovered key.  (The harness builds
+   that key with crypto/elliptic for P-256 and observes tink-go accepting.)
+   This is a property of ECDSA, not of tink-go; "other key rejected" holds for
+   independently generated keys only up to the primitive
+   (C03_ecdsa_genuine_signature_accepted_iff_oracle_event names the event). *)
+Theorem C03_ecdsa_other_key_rejected_refuted :
+  forall H raw (sign_rs : curve -> bytes -> bytes -> bytes -> N * N),
+    (forall c sk h rnd, fst (sign_rs c sk h rnd) < 256 ^ N.of_nat (field_size c) /\
+                        snd (sign_rs c sk h rnd) < 256 ^ N.of_nat (field_size c)) ->
+    forall (recover : curve -> bytes -> N -> N -> option bytes),
+    (forall c d r s p, recover c d r s = Some p -> raw c p d r s = true) ->
+    forall k sk rnd msg sig h' msg' p',
+    ecdsa_sign H sign_rs k sk rnd msg = Some sig ->
+    let sfx := suffix (ek_variant k) in
+    let rs := sign_rs (ek_curve k) sk (H (ek_hash k) (msg ++ sfx)) rnd in
+    recover (ek_curve k) (H h' (msg' ++ sfx)) (fst rs) (snd rs) = Some p' ->
+    ecdsa_verify H raw (ecdsa_with_pub_hash k p' h') sig msg' = Ok tt.
+Proof. exact ecdsa_other_key_rejected_is_false. Qed.
+Print Assumptions C03_ecdsa_other_key_rejected_refuted.
 
 (* ---------------- the premises of the second round are inhabited ---------------- *)
 
@@ -675,21 +699,20 @@ Example C03_example_ed25519 :
   ed25519_verify toy_ed_strict VCrunchy 16909060 [7] toy_ed_sig [9] = Err /\
   ed25519_verify toy_ed_strict VRaw 16909060 [7] toy_ed_sig [9] = Err /\
   ed25519_verify toy_ed_strict VTink 16909060 [7] (skipn 5 toy_ed_sig) [9] = Err /\
-  (* lax oracle: the modified message and the other key are accepted *)
-  ed25519_verify toy_ed_lax VTink 16909060 [8] toy_ed_sig [10] = Ok tt /\
-  ([8], [10]) <> ([7], [9] : bytes) /\
-  (* strict oracle: the no-forgery hypothesis holds, and the genuine pair verifies *)
-  (forall p m, toy_ed_strict p m (toy_ed_sign [5] ([9] ++ suffix VTink)) = true -> (p, m) = ([7], [9] ++ suffix VTink)).
-Proof.
-  repeat split; try (vm_compute; reflexivity); try discriminate.
-  intros p m Hc. unfold toy_ed_strict in Hc. apply andb_true_iff in Hc. destruct Hc as [Hc _].
-  apply andb_true_iff in Hc. destruct Hc as [Hp Hm]. apply beq_eq in Hp, Hm. subst. reflexivity.
-Qed.
+  (* lax oracle: the modified message is accepted under the same key (premises
+     of the same-key reduction), and under another key (the named event) *)
+  ed25519_verify toy_ed_lax VTink 16909060 [7] toy_ed_sig [10] = Ok tt /\ [10] <> ([9] : bytes) /\
+  ed25519_verify toy_ed_lax VTink 16909060 [8] toy_ed_sig [9] = Ok tt /\
+  (* strict oracle: the event does not occur and Verify rejects *)
+  toy_ed_strict [7] ([10] ++ suffix VTink) (toy_ed_sign [5] ([9] ++ suffix VTink)) = false /\
+  ed25519_verify toy_ed_strict VTink 16909060 [7] toy_ed_sig [10] = Err.
+Proof. repeat split; try (vm_compute; reflexivity); discriminate. Qed.
 
-(* RSA reduction: with the lax core a modified message is accepted (premises
-   inhabited, first disjunct: another digest); with a constant hash the second
-   disjunct is a collision of two DISTINCT strings; a strict oracle satisfies
-   the no-forgery hypothesis *)
+(* RSA: with the lax core a modified message is accepted under the same key
+   (premises of the same-key reduction, first disjunct: another digest); with a
+   constant hash the second disjunct is a collision of two DISTINCT strings;
+   another key (modulus and hash) with the same prefix: the named event; a
+   strict oracle: the event does not occur and Verify rejects *)
 Definition toyHconst (_ : hasht) (_ : bytes) : bytes := [0].
 Definition hash_is256 (h : hasht) : bool := match h with SHA256 => true | _ => false end.
 Definition toy_pkcs1_strict (n : bytes) (e : N) (h : hasht) (d sig : bytes) : bool :=
@@ -699,52 +722,215 @@ Definition toy_pss_strict (n : bytes) (e : N) (h : hasht) (s : N) (d sig : bytes
 
 Example C03_example_rsa_reduction :
   let k := toy_rsa VTink n2048 SHA256 in
-  rsa_same_prefix k (toy_rsa VTink (129 :: repeat 0 255) SHA384) /\
-  (* modified message, identity hash: accepted by the lax core, digests differ *)
+  let k' := toy_rsa VTink (129 :: repeat 0 255) SHA384 in
+  rsa_same_prefix k k' /\
   pkcs1_verify toyH toy_pkcs1_core k (pkcs1_sign toyH toy_pkcs1_sign k [5] [9]) [10] = Ok tt /\
+  [10] <> ([9] : bytes) /\
   toyH SHA256 ([10] ++ suffix VTink) <> toyH SHA256 ([9] ++ suffix VTink) /\
-  (* other key (modulus and hash) *)
-  pkcs1_verify toyH toy_pkcs1_core (toy_rsa VTink (129 :: repeat 0 255) SHA384) (pkcs1_sign toyH toy_pkcs1_sign k [5] [9]) [9] = Ok tt /\
   pss_verify toyH toy_pss_core k (pss_sign toyH toy_pss_sign k [5] [6] [9]) [10] = Ok tt /\
-  (* constant hash: the collision disjunct, on distinct strings *)
   pkcs1_verify toyHconst toy_pkcs1_core k (pkcs1_sign toyHconst toy_pkcs1_sign k [5] [9]) [10] = Ok tt /\
   toyHconst SHA256 ([10] ++ suffix VTink) = toyHconst SHA256 ([9] ++ suffix VTink) /\
   [10] ++ suffix VTink <> [9] ++ suffix VTink /\
-  (* strict oracles: genuine accepted, no-forgery hypotheses hold *)
+  pkcs1_verify toyH toy_pkcs1_core k' (pkcs1_sign toyH toy_pkcs1_sign k [5] [9]) [9] = Ok tt /\
   pkcs1_verify toyH toy_pkcs1_strict k (pkcs1_sign toyH toy_pkcs1_sign k [5] [9]) [9] = Ok tt /\
-  (forall n e h d, toy_pkcs1_strict n e h d (toy_pkcs1_sign [5] SHA256 (toyH SHA256 ([9] ++ suffix VTink))) = true ->
-     (n, e, h, d) = (rk_n k, rk_e k, rk_hash k, toyH (rk_hash k) ([9] ++ suffix VTink))) /\
-  (forall n e h s d, toy_pss_strict n e h s d (toy_pss_sign [5] SHA256 32 (toyH SHA256 ([9] ++ suffix VTink)) [6]) = true ->
-     (n, e, h, s, d) = (rk_n k, rk_e k, rk_hash k, rk_salt k, toyH (rk_hash k) ([9] ++ suffix VTink))).
-Proof.
-  cbv zeta. repeat split; try (vm_compute; reflexivity); try discriminate.
-  - intros n e h d Hc. unfold toy_pkcs1_strict in Hc.
-    repeat (apply andb_true_iff in Hc; let X := fresh "X" in destruct Hc as [Hc X]).
-    apply beq_eq in Hc, X0. apply N.eqb_eq in X2. destruct h; try discriminate X1. subst. reflexivity.
-  - intros n e h s d Hc. unfold toy_pss_strict in Hc.
-    repeat (apply andb_true_iff in Hc; let X := fresh "X" in destruct Hc as [Hc X]).
-    apply beq_eq in Hc, X0. apply N.eqb_eq in X1, X3. destruct h; try discriminate X2. subst. reflexivity.
-Qed.
+  pkcs1_verify toyH toy_pkcs1_strict k (pkcs1_sign toyH toy_pkcs1_sign k [5] [9]) [10] = Err /\
+  pkcs1_verify toyH toy_pkcs1_strict k' (pkcs1_sign toyH toy_pkcs1_sign k [5] [9]) [9] = Err /\
+  pss_verify toyH toy_pss_strict k (pss_sign toyH toy_pss_sign k [5] [6] [9]) [9] = Ok tt /\
+  pss_verify toyH toy_pss_strict k (pss_sign toyH toy_pss_sign k [5] [6] [9]) [10] = Err.
+Proof. cbv zeta. repeat split; try (vm_compute; reflexivity); discriminate. Qed.
 
-(* ECDSA reduction: toy_raw ignores point and digest, so a modified message is
-   accepted (premises inhabited); a strict raw verification satisfies the
-   no-forgery hypothesis *)
+(* ECDSA: toy_raw ignores point and digest, so a modified message is accepted
+   under the same key (premises of the same-key reduction).  A toy oracle WITH
+   recovery: toy_raw_rec accepts (r, s) for digest d exactly under the point
+   04 || d; recovery returns that point, its law holds, and the genuine
+   signature for message [9] is accepted for message [10] under the recovered
+   key, which differs from the signer's key. *)
 Definition toy_sign_rs (_ : curve) (_ _ _ : bytes) : N * N := (7, 300).
-Definition toy_raw_strict (_ : curve) (p d : bytes) (r s : N) : bool :=
-  beq p [4] && beq d [9] && (r =? 7) && (s =? 300).
+Definition toy_raw_rec (_ : curve) (p d : bytes) (r s : N) : bool := beq p (4 :: d) && (r =? 7) && (s =? 300).
+Definition toy_recover (_ : curve) (d : bytes) (r s : N) : option bytes :=
+  if (r =? 7) && (s =? 300) then Some (4 :: d) else None.
 
 Example C03_example_ecdsa_reduction :
   (forall c sk h rnd, fst (toy_sign_rs c sk h rnd) < 256 ^ N.of_nat (field_size c) /\
                       snd (toy_sign_rs c sk h rnd) < 256 ^ N.of_nat (field_size c)) /\
   ecdsa_sign toyH toy_sign_rs (toy_key DER VTink) [5] [6] [9] = Some [1;1;2;3;4; 48;7; 2;1;7; 2;2;1;44] /\
-  ecdsa_verify toyH toy_raw (ecdsa_with_pub_hash (toy_key DER VTink) [4] SHA256)
+  ecdsa_verify toyH toy_raw (toy_key DER VTink) [1;1;2;3;4; 48;7; 2;1;7; 2;2;1;44] [10] = Ok tt /\
+  [10] <> ([9] : bytes) /\
+  (* recovery *)
+  (forall c d r s p, toy_recover c d r s = Some p -> toy_raw_rec c p d r s = true) /\
+  toy_recover P256 (toyH SHA256 ([10] ++ suffix VTink)) 7 300 = Some [4; 10] /\
+  ecdsa_verify toyH toy_raw_rec (ecdsa_with_pub_hash (toy_key DER VTink) [4; 9] SHA256)
+               [1;1;2;3;4; 48;7; 2;1;7; 2;2;1;44] [9] = Ok tt /\
+  ecdsa_verify toyH toy_raw_rec (ecdsa_with_pub_hash (toy_key DER VTink) [4; 10] SHA256)
                [1;1;2;3;4; 48;7; 2;1;7; 2;2;1;44] [10] = Ok tt /\
-  ecdsa_verify toyH toy_raw_strict (toy_key DER VTink) [1;1;2;3;4; 48;7; 2;1;7; 2;2;1;44] [9] = Ok tt /\
-  (forall p d, toy_raw_strict P256 p d 7 300 = true -> (p, d) = ([4], toyH SHA256 ([9] ++ suffix VTink))).
+  [4; 10] <> ([4; 9] : bytes) /\
+  (* under the signer's own key the other message is rejected by this oracle *)
+  ecdsa_verify toyH toy_raw_rec (ecdsa_with_pub_hash (toy_key DER VTink) [4; 9] SHA256)
+               [1;1;2;3;4; 48;7; 2;1;7; 2;2;1;44] [10] = Err.
 Proof.
   split; [intros c sk h rnd; destruct c; vm_compute; split; reflexivity|].
-  repeat split; try (vm_compute; reflexivity).
-  intros p d Hc. unfold toy_raw_strict in Hc.
-  repeat (apply andb_true_iff in Hc; let X := fresh "X" in destruct Hc as [Hc X]).
-  apply beq_eq in Hc, X1. subst. reflexivity.
+  repeat split; try (vm_compute; reflexivity); try discriminate.
+  intros c d r s p Hc. unfold toy_recover in Hc.
+  destruct ((r =? 7) && (s =? 300)) eqn:E; [|discriminate]. injection Hc as <-.
+  unfold toy_raw_rec. rewrite beq_refl. apply andb_true_iff in E. destruct E as [E1 E2].
+  rewrite E1, E2. reflexivity.
+Qed.
+
+(* ====================================================================== *)
+(* Third round: RFC 8017 written from the RFC (model/Rsa8017.v: I2OSP, OS2IP,
+   RSAVP1, EMSA-PKCS1-v1_5 with the DigestInfo prefixes, MGF1, EMSA-PSS-ENCODE /
+   -VERIFY, RSASSA-PSS / RSASSA-PKCS1-v1_5 sign and verify), over the oracles
+   Hash, rsaep (x^e mod n) and rsadp (x^d mod n).  This is the "independent
+   strict verifier" of the property for RSA, in Coq; the extracted functions
+   rfc_pkcs1_verify / rfc_pss_verify ARE what the model run uses as the
+   standard verification (ocaml/c03.ml), with only the hash and s^e mod n
+   answered by the standard library.  Proofs: proofs/Rsa8017Proofs.v. *)
+
+(* I2OSP as run (digits read off the bits of the number) is the reference
+   definition by division, and the octet length k = ceil(modBits/8) is
+   rsa_sig_len *)
+Theorem C03_rfc8017_i2osp_and_k_are_the_reference_definitions :
+  (forall len x, i2osp len x = if x <? 256 ^ N.of_nat len then Some (be_bytes len x) else None) /\
+  (forall n, k_octets n = rsa_sig_len n).
+Proof. split; [exact i2osp_spec|exact k_octets_eq]. Qed.
+Print Assumptions C03_rfc8017_i2osp_and_k_are_the_reference_definitions.
+
+(* the RFC verifications are "length check, then core": every theorem about
+   std_pkcs1 / std_pss above (wrong length, zero-stripped, other prefix,
+   trailing, truncated) holds for them *)
+Theorem C03_rfc8017_verify_is_length_check_then_core :
+  forall Hash rsaep n e h sl d sig,
+    rfc_pkcs1_verify rsaep n e h d sig = std_pkcs1 (rfc_pkcs1_core rsaep) n e h d sig /\
+    rfc_pss_verify Hash rsaep n e h sl d sig = std_pss (rfc_pss_core Hash rsaep) n e h sl d sig.
+Proof. intros. split; [apply rfc_pkcs1_is_std|apply rfc_pss_is_std]. Qed.
+Print Assumptions C03_rfc8017_verify_is_length_check_then_core.
+
+(* EMSA-PSS-VERIFY (9.1.2) accepts EXACTLY the EMSA-PSS-ENCODE (9.1.1)
+   encodings of mHash with a salt of exactly sLen octets: the salt length is
+   bound, and an encoded message determines its salt.  Only law: the hash
+   returns hLen octets. *)
+Theorem C03_rfc8017_emsa_pss_verify_accepts_exactly_the_encodings :
+  forall Hash, (forall h m, length (Hash h m) = hlen h) ->
+  forall h mHash EM emBits sLen,
+    (emsa_pss_verify Hash h mHash EM emBits sLen = true <->
+     exists salt, length salt = sLen /\ emsa_pss_encode Hash h mHash emBits salt = Some EM) /\
+    (forall salt salt', emsa_pss_encode Hash h mHash emBits salt = Some EM ->
+                        emsa_pss_encode Hash h mHash emBits salt' = Some EM -> salt' = salt).
+Proof.
+  intros Hash HL h mHash EM emBits sLen. split; [apply emsa_pss_verify_iff; exact HL|].
+  intros salt salt'. apply emsa_pss_salt_length_is_bound. exact HL.
+Qed.
+Print Assumptions C03_rfc8017_emsa_pss_verify_accepts_exactly_the_encodings.
+
+(* RSASSA sign-then-verify, from the RFC algorithms alone.  Laws: the hash
+   returns hLen octets below 256; rsadp / rsaep are inverse permutations of
+   [0, n).  No law about the verification result is assumed any more. *)
+Theorem C03_rfc8017_sign_then_verify :
+  forall Hash rsaep rsadp,
+    (forall h m, length (Hash h m) = hlen h) -> (forall h m, wfb (Hash h m)) ->
+  forall n e sk,
+    (forall m, m < be_val n -> rsadp sk m < be_val n /\ rsaep n e (rsadp sk m) = m) ->
+  forall h digest salt,
+    wfb digest -> length digest = hlen h ->
+    ((length (digest_info h) + hlen h + 11 <= rsa_sig_len n)%nat ->
+     exists sig, rfc_pkcs1_sign rsadp n sk h digest = Some sig /\
+                 rfc_pkcs1_verify rsaep n e h digest sig = true) /\
+    (wfb salt -> (1 <= mod_bits n)%nat -> (hlen h + length salt + 2 <= (mod_bits n - 1 + 7) / 8)%nat ->
+     exists sig, rfc_pss_sign Hash rsadp n sk h digest salt = Some sig /\
+                 rfc_pss_verify Hash rsaep n e h (N.of_nat (length salt)) digest sig = true).
+Proof.
+  intros Hash rsaep rsadp HL HW n e sk HP h digest salt Wd Ld. split.
+  - intros Hk. eapply rfc_pkcs1_sign_then_verify; eauto.
+  - intros Ws Hm Hs. eapply rfc_pss_sign_then_verify; eauto.
+Qed.
+Print Assumptions C03_rfc8017_sign_then_verify.
+
+(* tink-go's accept set with the RFC verifier as the standard algorithm: Verify
+   accepts sig for msg iff sig = prefix || body and RSASSA-*-VERIFY of RFC 8017
+   accepts body for Hash(msg || legacy suffix) (PSS: MGF1 over the same hash,
+   the key's salt length); and what the RFC signer produces for that digest,
+   framed with the key's prefix, is accepted. *)
+Theorem C03_rsa_accept_set_is_rfc8017 :
+  forall Hash rsaep k sig msg,
+    (pkcs1_verify Hash (rfc_pkcs1_verify rsaep) k sig msg = Ok tt <->
+     exists body, sig = prefix (rk_variant k) (rk_id k) ++ body /\
+       rfc_pkcs1_verify rsaep (rk_n k) (rk_e k) (rk_hash k)
+                        (Hash (rk_hash k) (msg ++ suffix (rk_variant k))) body = true) /\
+    (pss_verify Hash (rfc_pss_verify Hash rsaep) k sig msg = Ok tt <->
+     exists body, sig = prefix (rk_variant k) (rk_id k) ++ body /\
+       rfc_pss_verify Hash rsaep (rk_n k) (rk_e k) (rk_hash k) (rk_salt k)
+                      (Hash (rk_hash k) (msg ++ suffix (rk_variant k))) body = true).
+Proof. intros. split; [apply pkcs1_verify_iff_proof|apply pss_verify_iff_proof]. Qed.
+Print Assumptions C03_rsa_accept_set_is_rfc8017.
+
+Theorem C03_rsa_rfc8017_signature_verifies_under_tink :
+  forall Hash rsaep rsadp,
+    (forall h m, length (Hash h m) = hlen h) -> (forall h m, wfb (Hash h m)) ->
+  forall k sk,
+    (forall m, m < be_val (rk_n k) -> rsadp sk m < be_val (rk_n k) /\ rsaep (rk_n k) (rk_e k) (rsadp sk m) = m) ->
+    rsa_key_ok (rk_n k) (rk_e k) = true ->
+  forall msg salt,
+    let d := Hash (rk_hash k) (msg ++ suffix (rk_variant k)) in
+    (exists body, rfc_pkcs1_sign rsadp (rk_n k) sk (rk_hash k) d = Some body /\
+       pkcs1_verify Hash (rfc_pkcs1_verify rsaep) k (prefix (rk_variant k) (rk_id k) ++ body) msg = Ok tt) /\
+    (wfb salt -> N.of_nat (length salt) = rk_salt k ->
+     (hlen (rk_hash k) + length salt + 2 <= (mod_bits (rk_n k) - 1 + 7) / 8)%nat ->
+     exists body, rfc_pss_sign Hash rsadp (rk_n k) sk (rk_hash k) d salt = Some body /\
+       pss_verify Hash (rfc_pss_verify Hash rsaep) k (prefix (rk_variant k) (rk_id k) ++ body) msg = Ok tt).
+Proof.
+  intros Hash rsaep rsadp HL HW k sk HP Hok msg salt d.
+  pose proof (rsa_key_ok_sig_len _ _ Hok) as Hk.
+  split.
+  - destruct (rfc_pkcs1_sign_then_verify Hash rsaep rsadp HL HW (rk_n k) (rk_e k) sk HP (rk_hash k) d
+                (HW _ _) (HL _ _)) as [body [S V]].
+    { destruct (rk_hash k); cbn [digest_info hlen length]; lia. }
+    exists body. split; [exact S|]. apply pkcs1_verify_iff_proof. exists body. auto.
+  - intros Ws Es Hs.
+    assert (Hm : (1 <= mod_bits (rk_n k))%nat).
+    { unfold rsa_key_ok in Hok. apply andb_true_iff in Hok. destruct Hok as [Hb _].
+      apply N.leb_le in Hb. unfold mod_bits. lia. }
+    destruct (rfc_pss_sign_then_verify Hash rsaep rsadp HL HW (rk_n k) (rk_e k) sk HP (rk_hash k) d salt
+                (HW _ _) Ws (HL _ _) Hm Hs) as [body [S V]].
+    exists body. split; [exact S|]. apply pss_verify_iff_proof. exists body. split; [reflexivity|].
+    rewrite <- Es. exact V.
+Qed.
+Print Assumptions C03_rsa_rfc8017_signature_verifies_under_tink.
+
+(* the laws are inhabited: identity "RSA" permutation, a toy hash of the right
+   length; a PSS signature is produced and verified by computation, a salt of
+   another length and a flipped bit are rejected *)
+Definition toyHashL (h : hasht) (m : bytes) : bytes :=
+  firstn (hlen h) (map (fun x => x mod 256) m ++ zeros (hlen h)).
+Definition toy_ep (_ : bytes) (_ : N) (x : N) : N := x.
+Definition toy_dp (_ : bytes) (x : N) : N := x.
+
+Example C03_example_rfc8017 :
+  (forall h m, length (toyHashL h m) = hlen h) /\ (forall h m, wfb (toyHashL h m)) /\
+  (forall m, m < be_val n2048 -> toy_dp [5] m < be_val n2048 /\ toy_ep n2048 65537 (toy_dp [5] m) = m) /\
+  mod_bits n2048 = 2048%nat /\
+  (let d := toyHashL SHA256 [9] in
+   let salt := [1; 2; 3; 4] in
+   match rfc_pss_sign toyHashL toy_dp n2048 [5] SHA256 d salt, rfc_pkcs1_sign toy_dp n2048 [5] SHA256 d with
+   | Some s, Some s1 =>
+       length s = 256%nat /\
+       rfc_pss_verify toyHashL toy_ep n2048 65537 SHA256 4 d s = true /\
+       rfc_pss_verify toyHashL toy_ep n2048 65537 SHA256 3 d s = false /\
+       rfc_pss_verify toyHashL toy_ep n2048 65537 SHA256 5 d s = false /\
+       rfc_pss_verify toyHashL toy_ep n2048 65537 SHA256 4 (toyHashL SHA256 [10]) s = false /\
+       rfc_pss_verify toyHashL toy_ep n2048 65537 SHA256 4 d (tl s) = false /\
+       rfc_pkcs1_verify toy_ep n2048 65537 SHA256 d s1 = true /\
+       rfc_pkcs1_verify toy_ep n2048 65537 SHA384 d s1 = false /\
+       rfc_pkcs1_verify toy_ep n2048 65537 SHA256 d s = false
+   | _, _ => False
+   end).
+Proof.
+  split.
+  { intros h m. unfold toyHashL. rewrite firstn_length, app_length, map_length, zeros_length. lia. }
+  split.
+  { intros h m. unfold toyHashL. apply wfb_firstn. apply wfb_app. split; [|apply zeros_wf].
+    unfold wfb. apply Forall_forall. intros y Hy. apply in_map_iff in Hy. destruct Hy as [x [<- _]].
+    apply N.mod_lt. discriminate. }
+  split; [intros m Hm; unfold toy_dp, toy_ep; auto|].
+  split; [vm_compute; reflexivity|].
+  vm_compute. repeat split; reflexivity.
 Qed.
